@@ -15,10 +15,10 @@ ASSUMPTIONS = [
 
 
 def plan(tier, seed):
-    sp = progwork.shards(tier, 3000, 60000)
+    sp = progwork.shards(tier, 3000, 200000)
     from hv import realwork
     sp += realwork.shards('C01', tier)
-    sp += [{'kind': 'cli', 'year': y, 'n': 8 if tier == 'quick' else 150} for y in (2021, 2022, 2023)]
+    sp += [{'kind': 'cli', 'year': y, 'n': 8 if tier == 'quick' else 400} for y in (2021, 2022, 2023)]
     return sp
 
 
